@@ -186,7 +186,13 @@ def set_dynamic_evaluate_fn(
   global _global_dynamic_evaluate_fn
   if per_thread:
     assert _global_dynamic_evaluate_fn is None, _global_dynamic_evaluate_fn
-    utils.thread_local_set(_TLS_KEY_DYNAMIC_EVALUATE_FN, fn)
+    if fn is None:
+      # NOTE: the key is removed (not set to None), so that a process-wide
+      # function set later is effective in this thread too.
+      if utils.thread_local_has(_TLS_KEY_DYNAMIC_EVALUATE_FN):
+        utils.thread_local_del(_TLS_KEY_DYNAMIC_EVALUATE_FN)
+    else:
+      utils.thread_local_set(_TLS_KEY_DYNAMIC_EVALUATE_FN, fn)
   else:
     _global_dynamic_evaluate_fn = fn
 
